@@ -63,7 +63,7 @@ theorem rule_instant (y : Int) (r : Rule) (time : Int) (isend : Bool) (std dst :
     obtain ⟨t0, t1⟩ := ht
     obtain ⟨m, dd, he, ha⟩ := apply_N y n (time - (if isend then dst - std else 0)) hy1 hy2 n1 n2 t0 t1
     have hn0 : (n + 1 == 0) = false := by simp; omega
-    refine ⟨{ month := some m, day := some dd, leapdays := (if n + 1 > 59 then -1 else 0),
+    refine ⟨{ month := some m, day := some dd, leapdays := (if 59 < n + 1 ∧ n + 1 < 366 then -1 else 0),
               seconds := time - (if isend then dst - std else 0) }, ?_, ha⟩
     simp [delta, attrOf, hn0, he, bind, Except.bind, pure, Except.pure]
 
